@@ -477,3 +477,21 @@ Proof.
     + apply OVS_none.
   - apply Build_posting_subst; cbn; [left; reflexivity | apply OVS_none | apply OXS_none | apply OXS_none | apply OVS_none].
 Qed.
+
+(* both orders of declaration versus first use, on concrete runs *)
+Definition ex_post (a : N) (amt : option vexpr) : posting :=
+  {| p_account := a; p_amount := amt; p_cost := None; p_lot := None; p_balance := None |}.
+Definition ex_txn (a : N) : nentry :=
+  NTxn {| t_date := 0%Z; t_posts := [ex_post a (Some (VAmt 1%Qc (Some 3))); ex_post 2 None] |}.
+Example ex_use_then_alias_rejected :
+  shown (process_named [ex_txn 7; NAccount 1 [7]]) = ShownErr (NInvalidAccount AlreadyCanonical) 1.
+Proof. reflexivity. Qed.
+Example ex_alias_then_canonical_rejected :
+  shown (process_named [NAccount 1 [7]; NAccount 7 []]) = ShownErr (NInvalidAccount AlreadyAlias) 1.
+Proof. reflexivity. Qed.
+Example ex_alias_of_two_rejected :
+  shown (process_named [NAccount 1 [7]; NAccount 2 [7]]) = ShownErr (NInvalidAccount ConflictingAlias) 1.
+Proof. reflexivity. Qed.
+Example ex_alias_then_use_same :
+  shown (process_named [NAccount 1 [7]; ex_txn 7]) = shown (process_named [NAccount 1 [7]; ex_txn 1]).
+Proof. reflexivity. Qed.
